@@ -16,7 +16,7 @@ KINDS_PLAY = ['unparseable card', 'card held by another seat', 'card already pla
 RULE = ('simulated sessions of n = 1-5 boards (generator of C08) with exactly one fault: abort at board k (1..n), in the auction '
         'at call j or in the play at card j, by whichever seat acts there, of kind ' + ', '.join(KINDS_AUCTION + KINDS_PLAY) +
         ', or an operator interrupt (KeyboardInterrupt raised in the main thread at its j-th blocking queue read of '
-        'board k); plus, on a REAL server process running the table manager in its main thread over loopback TCP, a real SIGINT (what Ctrl-C sends) delivered while it waits for the acting seat at a generated point of board k >= 2 (8 per quick run, 400 per thorough run; a wall-clock safety net there means inconclusive). Kind and board class (first / second / last board) are drawn uniformly (class histogram in the evidence); j, '
+        'board k, or at its p-th blocking step of any kind - queue read, pause, arrival at a barrier - after the players are seated, where the boards finished before the abort are those whose every call and card the table manager had already received); plus, on a REAL server process running the table manager in its main thread over loopback TCP, a real SIGINT (what Ctrl-C sends) delivered while it waits for the acting seat at a generated point of board k >= 2 (8 per quick run, 400 per thorough run; a wall-clock safety net there means inconclusive). Kind and board class (first / second / last board) are drawn uniformly (class histogram in the evidence); j, '
         'the rest of the scenario and the thread schedule are generated. Oracle: Server.run raises; afterwards the output file parses as '
         'JSON, passes JsonParser.parse_board_logs, and holds exactly the records of boards 1..k-1 (each equal to the C08 '
         'expectation on every field) and nothing of board k. evaluations = aborted sessions. Non-trivial = abort with '
@@ -155,7 +155,32 @@ def check_session(scenario, schedule, stats=None, fault=None, real_process=False
         return check_real_interrupt(scenario, fault, stats)
     k = fault['board']
     hook = None
-    if fault['kind'] == 'operator interrupt':
+    fired = []
+    if fault['kind'] == 'operator interrupt at a blocking step':
+        # KeyboardInterrupt at the p-th BLOCKING step of the main thread after the players are seated (a queue read, a
+        # pause, the arrival at a barrier - where an operator's Ctrl-C lands in practice).  The boards "finished before
+        # the abort" are those whose every call and card the table manager had already received: counted at run time.
+        state = {'seated': False, 'blocks': 0, 'gets': 0}
+
+        def fh(task, op, obj):
+            if task is None or task.name != 'main':
+                return
+            if not state['seated']:
+                if op == 'barrier.wait':
+                    state['seated'] = 'arrived'
+                return
+            if op in ('queue.get', 'sleep', 'barrier.wait'):
+                if state['blocks'] == fault['pos']:
+                    state['blocks'] += 1
+                    fired.append(state['gets'])
+                    raise KeyboardInterrupt()
+                state['blocks'] += 1
+                if op == 'queue.get':
+                    state['gets'] += 1
+
+        def hook(kernel):
+            kernel.fault_hook = fh
+    elif fault['kind'] == 'operator interrupt':
         target = gets_before(scenario, k) + fault['pos']
         count = [0]
 
@@ -168,9 +193,18 @@ def check_session(scenario, schedule, stats=None, fault=None, real_process=False
 
         def hook(kernel):
             kernel.fault_hook = fh
-    r = SE.run_case(scenario, schedule, fault=None if fault['kind'] == 'operator interrupt' else fault, kernel_hook=hook,
+    r = SE.run_case(scenario, schedule, fault=None if fault['kind'].startswith('operator interrupt') else fault, kernel_hook=hook,
                     clients_required=False)
     case = SE.case_of(scenario, schedule, r, {'fault': fault})
+    if fault['kind'] == 'operator interrupt at a blocking step':
+        if not fired:
+            # the session had fewer blocking steps than the drawn position: nothing was interrupted
+            if stats is not None:
+                stats.excluded['interrupt position beyond the end of the session'] += 1
+            SE.first_problem(SE.completion_problems(scenario, r), scenario, schedule, r)
+            return
+        k = max(b for b in range(len(scenario['boards']) + 1) if gets_before(scenario, b) <= fired[0])
+        case['boards_fully_received_before_the_interrupt'] = k
     if r.outcome.status == 'deadlock':
         raise Violation('aborting session deadlocked before the table manager gave up', case, {'blocked': r.outcome.detail})
     check(r.server_exc is not None, 'the table manager did not abandon the session on an offending action', case,
@@ -207,10 +241,11 @@ def check_session(scenario, schedule, stats=None, fault=None, real_process=False
 
 @st.composite
 def case_strategy(draw, min_boards=1):
-    i = draw(st.integers(0, 32))       # selects (kind, board class): all 11 kinds x {first, second, last board}
+    i = draw(st.integers(0, 35))       # selects (kind, board class): all 12 kinds x {first, second, last board}
     scenario = draw(SE.SCENARIO(min_boards, 5, 6))
     n = len(scenario['boards'])
-    kinds = [('auction', x) for x in KINDS_AUCTION] + [('play', x) for x in KINDS_PLAY] + [('any', 'operator interrupt')]
+    kinds = [('auction', x) for x in KINDS_AUCTION] + [('play', x) for x in KINDS_PLAY] + [('any', 'operator interrupt'),
+                                                                                         ('any', 'operator interrupt at a blocking step')]
     # cycle deterministically through (kind, board class); fall back to the next applicable kind
     k = [0, min(1, n - 1), n - 1][(i // len(kinds)) % 3]
     jraw = draw(st.integers(0, 400))
@@ -218,6 +253,12 @@ def case_strategy(draw, min_boards=1):
         phase, kind = kinds[(i + off) % len(kinds)]
         b = scenario['boards'][k]
         played = A.result(b['dealer'], b['calls']) is not None
+        if kind == 'operator interrupt at a blocking step':
+            # blocking steps of the main thread after seating: per board 2 barrier arrivals, one read per call, and per
+            # trick one pause and four reads (as the table manager stands today; if the position lies beyond the end of
+            # the session nothing is interrupted and the case is skipped)
+            upto = sum(2 + len(b2['calls']) + (65 if A.result(b2['dealer'], b2['calls']) is not None else 0) for b2 in scenario['boards'][:k + 1])
+            return scenario, {'board': k, 'phase': 'any', 'pos': jraw * 7919 % max(1, upto), 'kind': kind, 'seat': None}
         if kind == 'operator interrupt':
             total = len(b['calls']) + (52 if played else 0)
             return scenario, {'board': k, 'phase': 'any', 'pos': jraw % total, 'kind': kind, 'seat': None}
